@@ -162,7 +162,7 @@ func runS5(e *Env, cfg *RunCfg) {
 			}
 			if cur[k] == nil && next[k] < len(plans[k]) {
 				k := k
-				acts = append(acts, simrt.Action{Key: fmt.Sprintf("op:caller%d", k), Kind: "op", Weight: 2, Do: func() {
+				acts = append(acts, simrt.Action{Key: fmt.Sprintf("op:caller%d", k), Kind: "op", Weight: 20, Do: func() {
 					kind := plans[k][next[k]]
 					next[k]++
 					markerN++
@@ -174,7 +174,7 @@ func runS5(e *Env, cfg *RunCfg) {
 		}
 		// the writer keeps committing, and the fault plan keeps striking
 		if txnI < len(cfg.Txns) && !s.w.Closed && len(s.w.Pending) == 0 {
-			acts = append(acts, simrt.Action{Key: "op:writer", Kind: "op", Weight: 1, Do: func() {
+			acts = append(acts, simrt.Action{Key: "op:writer", Kind: "op", Weight: 10, Do: func() {
 				i := txnI
 				txnI++
 				s.arm(i)
